@@ -69,6 +69,23 @@ ToNodes(ts) ==
          IN y \o ToNodes(Tail(ts))
 FormattedOK(ts) == P!Collapse(ToNodes(ts)) = Decode(ts)
 
+(* the text a paragraph searches in when it holds links: a link counts as "[its text, stripped](its address)" - the      *)
+(* characters of the white-space elements inside the link included ("(address)" alone when the link has no text)           *)
+Blank(c) == c \in {9, 10, 11, 12, 13, 28, 29, 30, 31, 32, 133, 160, 5760, 8232, 8233, 8239, 8287, 12288} \cup (8192..8202)
+RECURSIVE LStrip(_)
+LStrip(s) == IF s # <<>> /\ Blank(Head(s)) THEN LStrip(Tail(s)) ELSE s
+RECURSIVE RStrip2(_)
+RStrip2(s) == IF s # <<>> /\ Blank(s[Len(s)]) THEN RStrip2(SubSeq(s, 1, Len(s) - 1)) ELSE s
+RECURSIVE OwnWithLinks(_, _)
+OwnWithLinks(ts, url) ==
+    IF ts = <<>> THEN <<>>
+    ELSE IF Head(ts).k = "o" /\ Head(ts).tag = "a"
+         THEN LET j == CloseOf(ts, 1, 0)
+                  inner == RStrip2(LStrip(OwnWithLinks(SubSeq(ts, 2, j - 1), url)))
+                  shown == IF inner = <<>> THEN <<40>> \o url \o <<41>> ELSE <<91>> \o inner \o <<93, 40>> \o url \o <<41>>
+              IN shown \o OwnWithLinks(SubSeq(ts, j + 1, Len(ts)), url)
+         ELSE Decode(<<Head(ts)>>) \o OwnWithLinks(Tail(ts), url)
+
 Verdict(ev) ==
     LET o == ev.op
         want == RewriteAll(ev.pre, ev.spans, IF Has(o, "new") THEN o.new ELSE <<>>)
@@ -94,6 +111,7 @@ Verdict(ev) ==
                 IN sl.text # (IF a >= Len(ev.own) THEN <<>> ELSE SubSeq(ev.own, a + 1, b))
          THEN {"text-at-slice"} ELSE {})
    \cup (IF o.op = "search" /\ ev.linkfree /\ ev.own # Decode(ev.pre) THEN {"own-text"} ELSE {})
+   \cup (IF o.op = "search" /\ ~ev.linkfree /\ Has(ev, "url") /\ ~Has(ev, "exc") /\ ev.own # OwnWithLinks(ev.pre, ev.url) THEN {"own-text-with-links"} ELSE {})
    \cup (IF o.op = "search" /\ Has(o, "p") /\ ev.linkfree /\
             [i \in 1..Len(ev.found) |-> ev.found[i].s + 1] # Occ(Decode(ev.pre), o.p, 1) THEN {"search-all"} ELSE {})
    \cup (IF o.op = "search" /\ Flat0(ev.post) # Flat0(ev.pre) THEN {"search-changed-element"} ELSE {})
